@@ -159,7 +159,6 @@ func (n *smpNet) evOf(p *party) *[]string {
 	return &n.evB
 }
 
-
 // an exponent r (big endian, n bytes) for which the proof hash c = SHA256(ix ‖ MPI(g1^r)) starts with a
 // zero byte: as a number the hash is then shorter than 32 bytes - honest, and rare (1 in 256)
 var zeroHashCache = map[string][]byte{}
@@ -580,6 +579,231 @@ func (g *gen) smpDeviant(w *world) {
 	}
 }
 
+// a secret as it appears in an oracle message: the 480 byte one is abbreviated
+func sq(b []byte) string {
+	long := bytes.Repeat([]byte("long secret "), 40)
+	if len(b) != len(long) {
+		return fmt.Sprintf("%q", b)
+	}
+	d := ""
+	for i := range b {
+		if b[i] != long[i] {
+			d += fmt.Sprintf(" with byte %d = %#02x", i, b[i])
+		}
+	}
+	return `"long secret "x40` + d
+}
+
+// two secrets that differ (in one bit, or empty / one zero byte)
+func (g *gen) differentSecrets() ([]byte, []byte) {
+	for {
+		if s1, s2, equal := g.secretPair(); !equal {
+			return s1, s2
+		}
+	}
+}
+
+// C11: a StartAuthenticate call that is refused (question with a NUL byte: error, nothing sent) in the
+// middle of a run of the same party is a no-op - the run in progress ends as its own two secrets say.
+//
+//	round "equal":  run with secret s on both sides, the refused call carries another secret -> success
+//	round "mirror": run with s / s', the refused call carries the responder's s'            -> no success
+func (g *gen) smpRefusedMidRun(w *world) {
+	version := 2 + g.r.Intn(2)
+	n := g.newSmpNet(w, version)
+	if !n.a.c.IsEncrypted() || !n.b.c.IsEncrypted() {
+		return
+	}
+	first := g.r.Intn(2)
+	for round := 0; round < 2 && !w.dead; round++ {
+		equal := round == first
+		ini, res := n.a, n.b
+		if g.r.Intn(2) == 0 {
+			ini, res = n.b, n.a
+		}
+		sIni, other := g.differentSecrets()
+		sRes := other // mirror: the refused call carries the responder's secret
+		if equal {
+			sRes = sIni
+		}
+		q := []string{"", "what is it?"}[g.r.Intn(2)]
+		badQ := []string{"who\x00are you", "\x00", q + "\x00", "\x00" + q}[g.r.Intn(4)]
+		when := g.r.Intn(2)
+		g.dist[fmt.Sprintf("smp:refused-mid-run:equal=%v:when%d", equal, when)]++
+		*n.evOf(ini), *n.evOf(res) = nil, nil
+		ts, _ := n.w.smpStart(ini, q, sIni)
+		n.note(ini)
+		n.l.enqueue(ini, ts)
+		if when == 1 { // the peer has been asked already; otherwise the request is still on its way
+			n.pump(nil)
+		}
+		ts, err := n.w.smpStart(ini, badQ, other)
+		n.note(ini)
+		olog.ok("C11")
+		if err == nil || len(ts) > 0 {
+			olog.viol("C11", "question-with-nul-accepted", fmt.Sprintf("OTRv%d: StartAuthenticate(%q, %s) during a run accepts a question containing a NUL byte (%d messages, err %v)", version, badQ, sq(other), len(ts), err))
+			n.l.enqueue(ini, ts)
+			n.pump(nil)
+			for _, p := range []*party{ini, res} {
+				ts, _ = n.w.smpAbort(p)
+				n.l.enqueue(p, ts)
+				n.pump(nil)
+			}
+			continue
+		}
+		n.pump(nil)
+		if w.dead || !res.c.IsEncrypted() {
+			return
+		}
+		ts, _ = n.w.smpSecret(res, sRes)
+		n.note(res)
+		n.l.enqueue(res, ts)
+		n.pump(nil)
+		if w.dead {
+			return
+		}
+		olog.ok("C11")
+		ei, er := *n.evOf(ini), *n.evOf(res)
+		where := "while the request is on its way"
+		if when == 1 {
+			where = "after the peer has been asked"
+		}
+		desc := fmt.Sprintf("OTRv%d: StartAuthenticate(%q, %s) by %s; %s the same party calls StartAuthenticate(%q, %s), which is refused (%v, nothing sent); then %s answers %s (secrets of the run equal=%v): initiator events %v, responder events %v",
+			version, q, sq(sIni), ini.id, where, badQ, sq(other), err, res.id, sq(sRes), equal, ei, er)
+		if equal {
+			if !hasEv(ei, "smp:6") || !hasEv(er, "smp:6") {
+				olog.viol("C11", "equal-secrets-no-success", desc)
+			}
+		} else {
+			if hasEv(ei, "smp:6") || hasEv(er, "smp:6") {
+				olog.viol("C11", "unequal-secrets-success", desc)
+			}
+			if !hasEv(er, "smp:7") || !hasEv(ei, "smp:7") && !hasEv(ei, "smp:1") {
+				olog.viol("C11", "mismatch-not-reported", desc)
+			}
+		}
+	}
+}
+
+// C12: a user call in an SMP state that does not expect it - StartAuthenticate while a run of the caller
+// is under way - may abort that run, but the next complete honest run with equal secrets (whoever
+// starts it, without any explicit abort) succeeds on both sides, and a restarted run answered with
+// another secret reports no success.
+func (g *gen) smpOutOfSequence(w *world, idx int) {
+	version := 2 + g.r.Intn(2)
+	n := g.newSmpNet(w, version)
+	if !n.a.c.IsEncrypted() || !n.b.c.IsEncrypted() {
+		return
+	}
+	ini, res := n.a, n.b
+	if g.r.Intn(2) == 0 {
+		ini, res = n.b, n.a
+	}
+	s, wrong := g.differentSecrets()
+	q := []string{"", "what is it?"}[g.r.Intn(2)]
+	variant := 0
+	if idx%2 == 1 {
+		variant = 1 + g.r.Intn(3)
+	}
+	if idx%4 == 2 {
+		variant = 4
+	}
+	caller, asked := ini, res // of the restarted run
+	story := ""
+	n.evA, n.evB = nil, nil
+	ts, _ := n.w.smpStart(ini, q, []byte("first attempt"))
+	switch variant {
+	case 0:
+		story = fmt.Sprintf("%s calls StartAuthenticate(%q, \"first attempt\"), the request is lost; %s calls StartAuthenticate(%q, %s)", ini.id, q, ini.id, q, sq(s))
+	case 1:
+		n.l.enqueue(ini, ts)
+		n.pump(nil)
+		story = fmt.Sprintf("%s calls StartAuthenticate(%q, \"first attempt\"), %s is asked; before the answer %s calls StartAuthenticate(%q, %s)", ini.id, q, res.id, ini.id, q, sq(s))
+	case 2:
+		n.l.enqueue(ini, ts)
+		n.pump(nil)
+		caller, asked = res, ini
+		story = fmt.Sprintf("%s calls StartAuthenticate(%q, \"first attempt\"), %s is asked and instead of answering calls StartAuthenticate(%q, %s)", ini.id, q, res.id, q, sq(s))
+	case 3:
+		n.l.enqueue(ini, ts)
+		n.pump(nil)
+		n.w.smpSecret(res, []byte("first attempt")) // the answer (SMP message 2) is lost
+		caller, asked = res, ini
+		story = fmt.Sprintf("%s calls StartAuthenticate(%q, \"first attempt\"), %s answers \"first attempt\", the answer is lost; %s calls StartAuthenticate(%q, %s)", ini.id, q, res.id, res.id, q, sq(s))
+	case 4:
+		// the party that asked answers its own question: nobody asked it for a secret
+		n.l.enqueue(ini, ts)
+		n.pump(nil)
+		_, err := n.w.smpSecret(ini, s)
+		story = fmt.Sprintf("%s calls StartAuthenticate(%q, \"first attempt\"), %s is asked; %s calls ProvideAuthenticationSecret(%s) although nobody asked it (err %v)", ini.id, q, res.id, ini.id, sq(s), err)
+		olog.ok("C12")
+		if err == nil {
+			olog.viol("C12", "unexpected-answer-accepted", fmt.Sprintf("OTRv%d: %s", version, story))
+		}
+	}
+	if w.dead {
+		olog.viol("C12", "smp-panic", "a call panicked: "+story)
+		return
+	}
+	follow := g.r.Intn(3)
+	if variant == 4 {
+		follow = 0 // no restarted run: straight on to the fresh one
+	} else {
+		ts, _ = n.w.smpStart(caller, q, s)
+		n.l.enqueue(caller, ts)
+		n.pump(nil)
+	}
+	g.dist[fmt.Sprintf("smp:out-of-sequence:variant%d:follow%d", variant, follow)]++
+	switch follow {
+	case 0:
+		story += "; nobody answers"
+	case 1, 2:
+		ans := s
+		if follow == 2 {
+			ans = wrong
+		}
+		n.evA, n.evB = nil, nil
+		ts, err := n.w.smpSecret(asked, ans)
+		n.note(asked)
+		n.l.enqueue(asked, ts)
+		n.pump(nil)
+		story += fmt.Sprintf("; %s answers %s (err %v)", asked.id, sq(ans), err)
+		if follow == 2 {
+			olog.ok("C12")
+			if hasEv(n.evA, "smp:6") || hasEv(n.evB, "smp:6") {
+				olog.viol("C12", "out-of-sequence-call-success", fmt.Sprintf("OTRv%d: %s: success reported with different secrets: %s %v, %s %v", version, story, n.a.id, n.evA, n.b.id, n.evB))
+			}
+		}
+	}
+	if w.dead {
+		olog.viol("C12", "smp-panic", "a call panicked: "+story)
+		olog.viol("C13", "receive-panics:smp", "a call panicked: "+story)
+		return
+	}
+	// the next complete honest run
+	fi, fr := n.a, n.b
+	if g.r.Intn(2) == 0 {
+		fi, fr = n.b, n.a
+	}
+	if variant == 4 {
+		fi, fr = ini, res // the party whose call was refused simply tries again
+	}
+	s2, _, _ := g.secretPair()
+	q2 := []string{"", "and now?"}[g.r.Intn(2)]
+	n.evA, n.evB = nil, nil
+	n.honestRun(fi, fr, q2, s2, s2, nil)
+	olog.ok("C12")
+	if w.dead {
+		olog.viol("C12", "smp-panic", "a call panicked in the run after: "+story)
+		olog.viol("C13", "receive-panics:smp", "a call panicked in the run after: "+story)
+		return
+	}
+	if !hasEv(n.evA, "smp:6") || !hasEv(n.evB, "smp:6") {
+		olog.viol("C12", "no-recovery-after-out-of-sequence-call", fmt.Sprintf("OTRv%d: %s; then a fresh run, %s calls StartAuthenticate(%q, %s) and %s answers the same secret, does not succeed: %s events %v, %s events %v",
+			version, story, fi.id, q2, sq(s2), fr.id, n.a.id, n.evA, n.b.id, n.evB))
+	}
+}
+
 func init() {
 	profiles["smp"] = func(seed int64, n int, out *emitter, extra map[string]interface{}) map[string]int {
 		g := &gen{r: rand.New(rand.NewSource(seed)), out: out, dist: map[string]int{}}
@@ -595,6 +819,15 @@ func init() {
 				g.forceDegenerate = i%10 == 7
 				g.smpDeviant(w)
 				g.forceDegenerate = false
+			}
+		}
+		// appended (the scenarios above keep their share of the random stream): refused calls in the
+		// middle of a run (C11) and out-of-sequence StartAuthenticate calls followed by a fresh run (C12)
+		for i := 0; i < n/5; i++ {
+			if i%2 == 0 {
+				g.smpRefusedMidRun(w)
+			} else {
+				g.smpOutOfSequence(w, i/2)
 			}
 		}
 		extra["panics"] = panicCount
